@@ -20,10 +20,10 @@ F1 = 0.15915494309189535          # 2*pi*F1 == 1.0 exactly in binary64
 LEAVES = ["R0", "Rinf", "R1", "R2", "C1", "L1"]
 
 
-def cfg_text(leaves, depth, kinds, nested_open=True, invariants=("ObeysLaw", "ArrayEqualsPointwise")):
+def cfg_text(leaves, depth, kinds, nested_open=True, invariants=("ObeysLaw", "ArrayEqualsPointwise"), freq="all"):
     q = "{" + ", ".join(f'"{k}"' for k in kinds) + "}"
     inv = "".join(f"INVARIANT {i}\n" for i in invariants)
-    return (f"SPECIFICATION Spec\nCONSTANTS\n    MaxLeaves = {leaves}\n    MaxDepth = {depth}\n    LeafKinds = {q}\n"
+    return (f"SPECIFICATION Spec\nCONSTANTS\n    MaxLeaves = {leaves}\n    MaxDepth = {depth}\n    LeafKinds = {q}\n    FreqMode = \"{freq}\"\n"
             f"    NestedOpenIsOpen = {'TRUE' if nested_open else 'FALSE'}\n{inv}")
 
 
@@ -261,11 +261,12 @@ def replay(case) -> int:
 def run(tier: str, seed: int) -> int:
     ensure_repo_on_path()
     v = Verdict("C01", tier, seed)
-    plans = [(3, 2, ["R0", "Rinf", "R1", "C1", "L1"])] if tier == "quick" else [(4, 2, ["R0", "Rinf", "R1", "C1", "L1"]), (3, 3, LEAVES + ["L0"])]
-    for leaves, depth, kinds in plans:
-        res = run_tlc("Impedance", cfg_text(leaves, depth, kinds), dump=True, coverage=False, timeout=7200, heap="24g")
+    plans = ([(3, 2, ["R0", "Rinf", "C1", "L1"], "all"), (3, 3, ["Rinf", "R1"], "one")] if tier == "quick"
+             else [(4, 2, ["R0", "Rinf", "R1", "C1", "L1"], "all"), (3, 3, LEAVES + ["L0"], "all"), (4, 3, ["Rinf", "R1"], "one")])
+    for leaves, depth, kinds, freq in plans:
+        res = run_tlc("Impedance", cfg_text(leaves, depth, kinds, freq=freq), dump=True, coverage=False, timeout=7200, heap="24g")
         try:
-            v.add_tlc(f"leaves<={leaves} depth<={depth} kinds={len(kinds)}", res)
+            v.add_tlc(f"leaves<={leaves} depth<={depth} kinds={len(kinds)} freq={freq}", res)
             if res.violated:
                 v.model_violation("Impedance", res, "the transcription of the vectorised evaluation disagrees with the composition law")
             else:
